@@ -192,6 +192,26 @@ def _implied(s, pol):
     return []
 
 
+def const_truth(s):
+    """truth value of a boolean structure if it is decided by constants alone, else None"""
+    k = s[0]
+    if k == 'const':
+        return s[1]
+    if k == 'atom':
+        return None
+    if k == 'not':
+        v = const_truth(s[1])
+        return None if v is None else not v
+    vals = [const_truth(it) for it in s[1]]
+    if k == 'and':
+        if any(v is False for v in vals):
+            return False
+        return True if all(v is True for v in vals) else None
+    if any(v is True for v in vals):
+        return True
+    return False if all(v is False for v in vals) else None
+
+
 def all_atoms(test):
     out = []
 
@@ -273,8 +293,11 @@ class CFG:
         for h in handlers:
             self._edge((n, None), h, exc=True)
         if isinstance(st, ast.If):
-            t = self._block(st.body, [(n, (st.test, True))], loop, handlers, finals)
-            if st.orelse:
+            tv = const_truth(literals(st.test))     # `if True:` / `x or True`: the other edge is dead
+            t = self._block(st.body, [(n, (st.test, True))], loop, handlers, finals) if tv is not False else []
+            if tv is True:
+                f = []
+            elif st.orelse:
                 f = self._block(st.orelse, [(n, (st.test, False))], loop, handlers, finals)
             else:
                 f = [(n, (st.test, False))]
